@@ -113,6 +113,9 @@ def contexts():
            ('bind', 'x', None, ('AG', ('EF', ('and', X, X)))), ('bind', 'x', None, ('AX', ('and', X, X))), ('bind', 'x', None, ('AG', ('EG', X))), ('bind', 'x', None, ('EX', X)),
            ('exists', 'x', None, ('AG', ('EF', X))), ('forall', 'x', None, ('AX', X)), ('bind', 'x', None, ('AG', ('AG', ('EF', X)))), ('bind', 'x', None, ('not', ('AX', X))),
            ('and', ATTR(), STEADY()), ('iff', ATTR(), ('bind', 'x', None, ('AG', ('EF', ('and', X, ('true',)))))), ('iff', STEADY(), ('bind', 'x', None, ('AX', ('or', X, ('false',)))))]
+    # the near-miss "pattern with a domain on the binder" nested inside another restricted scope (domains w, p, f are arbitrary sets)
+    for pat in (ATTR, STEADY):
+        fs += [('bind', 'x', 'w', pat('xx', 'p')), ('exists', 'x', 'd', ('or', ('jump', 'x', P0), pat('xx', 'f'))), ('bind', 'x', 'p', ('EX', pat('xx', 'w'))), ('forall', 'x', 'w', ('or', pat('xx', 'p'), X))]
     # an unused binder whose body talks about the variable of an ENCLOSING quantifier (not a pattern), closed in four ways
     for body in (('AG', ('EF', X)), ('AX', X)):
         nb = ('bind', 'xx', None, body)
@@ -132,6 +135,7 @@ def run(chk):
     for i, f in enumerate(fs):
         k = S.quant_depth(f)
         if k > 2: continue
+        if not thorough and len(S.labels(f)[1]) >= 2: continue      # two nested domains: minutes per query from MIR; E-UNI decides them in the quick tier
         tasks.append({'n': 2, 'k': k, 'c': 0, 'entry': 'multi_ext', 'phis': [f], 'twin': [twin_for(f)]})
         if k <= 1 and (thorough or (i % 4 == 0 and S.depth(f) <= 3)): tasks.append({'n': 2, 'k': k, 'c': 1, 'entry': 'multi_ext_dirty', 'phis': [f], 'check_unit': True, 'timeout_ms': 600000 if thorough else 60000})
     # batches: the patterns next to each other and next to formulas containing them
